@@ -183,7 +183,9 @@ def classify(res):
     """signature of a failing real run (res = result record)."""
     flt = res.get('fault') or {}
     if res['status'] == 'fault':
-        fn = (flt.get('fn') or '')
+        # the function whose shared operation faulted: the task was suspended in front of it
+        # (the label is more reliable than parsing the panic's stack text)
+        fn = (flt.get('label') or '').split('<')[0] or (flt.get('fn') or '')
         where = 'hold-before-close' if flt.get('holdStep', 0) < flt.get('closeStep', 0) else 'hold-after-close'
         if flt.get('closeStep', 0) == 0:
             where = 'no-close'
